@@ -97,14 +97,37 @@ func codecSet(rounds int, enc *json.Encoder) {
 		}
 	}
 	// phase 1: the very first encodings of a type happen at the same moment in 4 goroutines
-	c := newCollector("every constructor: 4 goroutines encode (and decode) a value of it at the same moment, the first use of the type in the process")
-	for _, it := range items {
+	c := newCollector("every constructor: 4 goroutines encode (even entries) or decode (odd entries) a value of it at the same moment, the first use of the type in the process")
+	for idx, it := range items {
 		const G = 4
 		var out [G][]byte
 		var errs [G]error
 		var back [G][]byte
+		if idx%2 == 1 {
+			// odd items: the bytes are made first (sequentially), then the very first decodings of the type
+			// happen at the same moment
+			seq, serr := tl.Marshal(it.v.Interface().(tl.Object))
+			if serr != nil {
+				continue
+			}
+			it.seq = seq
+			together(G, func(g int) {
+				c.guard("codec|first-use-decode", func() {
+					if o, err := tl.DecodeUnknownObject(append([]byte{}, seq...)); err == nil {
+						back[g], _ = tl.Marshal(o)
+					}
+				})
+			})
+			c.rep.Rounds++
+			for g := 0; g < G; g++ {
+				if !bytes.Equal(back[g], back[0]) || (back[g] != nil && !bytes.Equal(back[g], seq)) {
+					c.wrong("codec|first-use-decode|decoded-values-differ")
+				}
+			}
+			continue
+		}
 		together(G, func(g int) {
-			c.guard("codec|first-use|"+it.name, func() {
+			c.guard("codec|first-use", func() {
 				out[g], errs[g] = tl.Marshal(it.v.Interface().(tl.Object))
 				if errs[g] == nil {
 					if o, err := tl.DecodeUnknownObject(out[g]); err == nil {
@@ -139,7 +162,7 @@ func codecSet(rounds int, enc *json.Encoder) {
 				if it.seq == nil {
 					continue // not encodable at all (recorded finding of C01)
 				}
-				c.guard("codec|mixed|"+it.name, func() {
+				c.guard("codec|mixed", func() {
 					b, err := tl.Marshal(it.v.Interface().(tl.Object))
 					if err != nil {
 						c.wrong("codec|mixed|marshal-error")
